@@ -1,6 +1,6 @@
 (* C02: generated deserializers decode every byte string as the specification prescribes.
    Statements only; proofs in Spec/WireThm*.v, Codec/Refine.v and Codec/RefineDes*.v. *)
-From Verif Require Import Wire WireThm WireThmRt WireThmExt WireThmValid Walker Refine RefineDesBase PrimsOn RefineDes WalkerBound InstancesC InstancesCpp InstancesPy.
+From Verif Require Import Wire WireThm WireThmRt WireThmExt WireThmValid Walker Refine RefineDesBase PrimsOn RefineDes WalkerBound InstancesC InstancesCpp InstancesPy InstancesTyped BulkArrays BulkArraysDes.
 Local Open Scope nat_scope.
 
 (* the reported number of consumed bytes never exceeds the number supplied *)
@@ -148,6 +148,69 @@ Example c02_instances_run :
   get_bits (cpp_prims false) (bits_of_bytes [255; 1; 7]%N) 16 3 13 = bits_of_N 13 63 /\
   get_bits py_prims (bits_of_bytes [255; 1; 7]%N) 16 8 16 = bits_of_N 16 1.
 Proof. vm_compute. repeat split; reflexivity. Qed.
+
+(* ROUND 3.  (a) TYPED GETTERS (Codec/InstancesTyped.v): nunavutGetF16/32/64, nunavutGetI<N> and nunavutGetBit return what
+   Walker.r_prim computes (C14: c_float_members_are_integer_members, get_ixx_sign_ext_b, get_uxx_spec_b), so
+   c02_c_walk_des_refines covers float, signed and boolean fields as the generated code reads them; the C++ members are these
+   functions (c02_cpp_typed_members_are_c: cpp_members_are_c_b, cpp_float_members_are_c). *)
+Theorem c02_c_typed_getters_are_r_prim : forall little buf cap off sat, c_dom buf -> cap <= length buf -> cap mod 8 = 0 ->
+  (N.of_nat off < CPrims.two64)%N ->
+  let b := InstancesBase.bytes_of_bits buf in let size := N.of_nat (cap / 8) in let o := N.of_nat off in
+  let P := c_prims little in
+  (match CPrims.get_f16 little b size o with Some x => r_prim P (PF 16 sat) buf cap off = VFlt x | None => False end) /\
+  (match CPrims.get_f32 little b size o with Some x => r_prim P (PF 32 sat) buf cap off = VFlt x | None => False end) /\
+  (match CPrims.get_f64 little b size o with Some x => r_prim P (PF 64 sat) buf cap off = VFlt x | None => False end) /\
+  (forall w, 1 <= w <= 64 ->
+     match CPrims.get_ixx little (N.of_nat (std_width w)) b size o (N.of_nat w) with
+     | Some z => r_prim P (PS w sat) buf cap off = VInt z | None => False end) /\
+  (match CPrims.get_bit little b size o with Some x => r_prim P PBool buf cap off = VBool x | None => False end).
+Proof. exact c_typed_getters_are_r_prim. Qed.
+Print Assumptions c02_c_typed_getters_are_r_prim.
+
+Theorem c02_cpp_typed_members_are_c : forall buf size off, c_dom buf -> size <= length buf / 8 -> (N.of_nat off + 64 < CPrims.two64)%N ->
+  let s := cpp_span buf size off in let b := InstancesBase.bytes_of_bits buf in let sz := N.of_nat size in let o := N.of_nat off in
+  (forall (z : Z) len, (len <= 64)%N -> CppPrims.cpp_set_ixx s z len = CPrims.set_ixx false b sz o z len) /\
+  (forall v, CppPrims.cpp_set_bit s v = CPrims.set_bit b sz o v) /\
+  (forall x, CppPrims.cpp_set_f16 s x = CPrims.set_f16 false b sz o x /\ CppPrims.cpp_set_f32 s x = CPrims.set_f32 false b sz o x /\
+             CppPrims.cpp_set_f64 s x = CPrims.set_f64 false b sz o x) /\
+  CppPrims.cpp_get_f16 s = CPrims.get_f16 false b sz o /\ CppPrims.cpp_get_f32 s = CPrims.get_f32 false b sz o /\
+  CppPrims.cpp_get_f64 s = CPrims.get_f64 false b sz o /\
+  (forall w len, ((w =? 8) || (w =? 16) || (w =? 32) || (w =? 64))%N = true ->
+     CppPrims.cpp_get_ixx w s len = CPrims.get_ixx false w b sz o len) /\
+  CppPrims.cpp_get_bit s = CPrims.get_bit false b sz o.
+Proof. exact cpp_typed_members_are_c. Qed.
+Print Assumptions c02_cpp_typed_members_are_c.
+
+(* (b) BULK ARRAY PATHS (Codec/BulkArraysDes.v; C14 get_bits_zero_ext, le_elems_bit): ONE nunavutGetBits into the array object, then
+   the elements are the little-endian fields of the image.  Element i = the raw field the walker reads at off + i*w, for EVERY
+   capacity (a partially available array is zero-extended: saturated fragment) and whatever the destination held before. *)
+Theorem c02_c_bulk_des_elements : forall buf cap off k n (output : list N),
+  c_dom buf -> cap <= length buf -> cap mod 8 = 0 -> 0 < k -> (N.of_nat (off + n * (8 * k)) < CPrims.two64)%N ->
+  Bits.bytes_ok output -> k * n <= length output -> (8 * CPrims.blen output < CPrims.two64)%N ->
+  exists r, CPrims.get_bits output (InstancesBase.bytes_of_bits buf) (N.of_nat (cap / 8)) (N.of_nat off) (N.of_nat (n * (8 * k))) = Some r /\
+            length r = length output /\
+            forall i, i < n -> nth i (PrimsExt.le_elems n k r) 0%N = raw_field buf cap (off + i * (8 * k)) (8 * k).
+Proof. exact c_bulk_des_elements. Qed.
+Print Assumptions c02_c_bulk_des_elements.
+
+Theorem c02_c_bulk_des_equals_element_loop : forall little p buf cap off n (output : list N),
+  prim_wf p = true -> std_prim p = true -> c_dom buf -> cap <= length buf -> cap mod 8 = 0 ->
+  (N.of_nat (off + n * prim_bits p) < CPrims.two64)%N ->
+  Bits.bytes_ok output -> prim_bits p / 8 * n <= length output -> (8 * CPrims.blen output < CPrims.two64)%N ->
+  exists r, CPrims.get_bits output (InstancesBase.bytes_of_bits buf) (N.of_nat (cap / 8)) (N.of_nat off) (N.of_nat (n * prim_bits p)) = Some r /\
+            wd_list (wd_field (c_prims little) (wd_body (c_prims little)) (TPrim p)) n buf cap off =
+              Ok (map (fun x => dec_prim p (bits_of_N (prim_bits p) x)) (PrimsExt.le_elems n (prim_bits p / 8) r), off + n * prim_bits p).
+Proof. exact c_bulk_des_equals_element_loop. Qed.
+Print Assumptions c02_c_bulk_des_equals_element_loop.
+
+Theorem c02_c_bulk_bool_des : forall buf cap off n (output : list N),
+  c_dom buf -> cap <= length buf -> cap mod 8 = 0 -> (N.of_nat (off + n) < CPrims.two64)%N ->
+  (n + 7) / 8 <= length output -> (8 * CPrims.blen output < CPrims.two64)%N ->
+  exists r, CPrims.get_bits output (InstancesBase.bytes_of_bits buf) (N.of_nat (cap / 8)) (N.of_nat off) (N.of_nat n) = Some r /\
+            forall i, i < 8 * ((n + 7) / 8) ->
+              Bits.bit r (N.of_nat i) = if i <? n then nth (off + i) (firstn cap buf) false else false.
+Proof. exact c_bulk_bool_des. Qed.
+Print Assumptions c02_c_bulk_bool_des.
 
 (* finding F-PY-DES-ASSERT: the quirk-faithful model of the generated Python deserializer (assert consumed <= max bit length of
    the type) refuses an input the specification accepts *)
